@@ -317,3 +317,150 @@ pub fn arbitrary_bytes(r: &mut Rng) -> Vec<u8> {
         }
     }
 }
+
+/// Dimension audit: a LONG token soup (tens of kilobytes, thousands of lines) for the window recordings, from a
+/// generator of its own (the streams of `token_soup` stay what they were).  Besides the tokens of `token` it
+/// writes lexemes whose LENGTH is the point: identifiers of 1 and of 255..300 characters, integers with hundreds of
+/// leading zeros / separators (also directly behind the base prefix and before the suffix), string literals and
+/// comments of several hundred bytes.
+pub fn long_soup(r: &mut Rng, n: usize, eol: usize) -> String {
+    let mut s = String::new();
+    let newline = |r: &mut Rng, s: &mut String| match eol {
+        0 => s.push('\n'),
+        1 => s.push_str("\r\n"),
+        _ => {
+            if r.chance(50) {
+                s.push('\n')
+            } else {
+                s.push_str("\r\n")
+            }
+        }
+    };
+    for _ in 0..n {
+        if r.chance(4) {
+            let t = match r.below(9) {
+                0 => ((b'a' + r.below(26) as u8) as char).to_string(),
+                1 => {
+                    let len = r.range(254, 300);
+                    let mut id = String::from("q");
+                    for _ in 1..len {
+                        id.push(*r.pick(&['a', 'Z', '_', '7']));
+                    }
+                    id
+                }
+                2 => format!("0x{}{:x}", "0".repeat(r.range(30, 400)), r.next()),
+                3 => format!("0x_{:X}_u64", r.next()),
+                4 => format!("0b_{}1{}", "0".repeat(r.range(120, 300)), if r.chance(50) { "_u8" } else { "" }),
+                5 => format!("{}{}", r.range(1, 9), "_".repeat(r.range(1, 300))),
+                6 => {
+                    let mut t = String::from("\"");
+                    for _ in 0..r.range(250, 600) {
+                        if r.chance(10) { legal_escape(r, &mut t, true) } else { raw_char(r, &mut t, '"') }
+                    }
+                    t.push('"');
+                    t
+                }
+                7 => format!("{}{}", r.next(), *r.pick(SUFFIXES)),
+                _ => format!("{}!", "w".repeat(r.range(250, 260))),
+            };
+            s.push_str(&t);
+        } else if r.chance(1) && r.chance(30) {
+            // a few (possibly illegal) lexemes of the ordinary generator: the second generation reports at most 100
+            // lexical errors per text, so a long text must stay well below that for its windows to be complete
+            s.push_str(&token(r));
+        } else {
+            s.push_str(&legal_token(r));
+        }
+        // (tokens are glued rarely: gluing makes illegal lexemes, and the text must stay below 100 of them)
+        match r.weighted(&[2, 50, 5, 28, 15]) {
+            0 => {}
+            1 => s.push(' '),
+            2 => s.push('\t'),
+            3 => {
+                newline(r, &mut s);
+                for _ in 0..r.below(3) {
+                    s.push(if r.chance(50) { '\t' } else { ' ' });
+                }
+            }
+            _ => {
+                s.push_str(" //");
+                for _ in 0..(if r.chance(10) { r.range(200, 700) } else { r.below(30) }) {
+                    raw_char(r, &mut s, '\n');
+                }
+                newline(r, &mut s);
+            }
+        }
+    }
+    s
+}
+
+fn legal_escape(r: &mut Rng, out: &mut String, in_string: bool) {
+    match r.below(if in_string { 10 } else { 8 }) {
+        0 => out.push_str("\\n"),
+        1 => out.push_str("\\r"),
+        2 => out.push_str("\\t"),
+        3 => out.push_str("\\\\"),
+        4 => out.push_str("\\'"),
+        5 => out.push_str("\\\""),
+        6 => out.push_str("\\0"),
+        7 => {
+            let b = r.below(256);
+            if r.chance(50) { out.push_str(&format!("\\x{b:02x}")) } else { out.push_str(&format!("\\x{b:02X}")) }
+        }
+        _ => {
+            let c = *r.pick(&[0u32, 0x41, 0x7F, 0x80, 0x7FF, 0x800, 0xD7FF, 0xE000, 0x20AC, 0xFFFF, 0x10000, 0x1F600, 0x10FFFF]);
+            let zeros = "0".repeat(r.below(3).min(6 - format!("{c:x}").len()));
+            out.push_str(&format!("\\u{{{zeros}{c:x}}}"));
+        }
+    }
+}
+
+/// a token in a legal spelling (the generator chooses legal forms; whether they ARE legal is still TLC's verdict)
+fn legal_token(r: &mut Rng) -> String {
+    match r.weighted(&[30, 20, 14, 4, 16, 8, 8]) {
+        0 => r.pick(OPERATORS).to_string(),
+        1 => r.pick(KEYWORDS).to_string(),
+        2 => identifier(r),
+        3 => {
+            let id = identifier(r);
+            if KEYWORDS.contains(&id.as_str()) { format!("{id}_!") } else { format!("{id}!") }
+        }
+        4 => {
+            let v = value(r);
+            let mut t = match r.below(4) {
+                0 | 1 => {
+                    let d = v.to_string();
+                    if d == "0" { d } else { with_underscores(r, &d) }
+                }
+                2 => format!("0x{}", with_underscores(r, &format!("{v:x}"))),
+                _ => format!("0b{}", with_underscores(r, &format!("{v:b}"))),
+            };
+            if r.chance(40) {
+                t.push_str(*r.pick(SUFFIXES));
+            }
+            t
+        }
+        5 => {
+            let mut t = String::from("\"");
+            for _ in 0..(if r.chance(10) { r.range(10, 60) } else { r.below(8) }) {
+                if r.chance(25) { legal_escape(r, &mut t, true) } else { raw_char(r, &mut t, '"') }
+            }
+            t.push('"');
+            t
+        }
+        _ => {
+            let mut t = String::from("'");
+            if r.chance(40) {
+                legal_escape(r, &mut t, false)
+            } else {
+                t.push((b'!' + r.below(94) as u8) as char);
+                if t.ends_with('\'') || t.ends_with('\\') {
+                    t.pop();
+                    t.push('x');
+                }
+            }
+            t.push('\'');
+            t
+        }
+    }
+}
